@@ -212,6 +212,15 @@ func checkC04(c *Ctx) {
 	c.Rule("C04-R11", "the hand-back path selects no colour and switches no attribute on: disengage and the helpers it calls emit resets only (a clear through the drawing helper re-selects the screen's default colours after ResetFgBg)")
 	c.Expect("C04-R11", 1)
 	checkHandBackSelectsNoColours(c, p, "C04-R11")
+	c.Rule("C04-R12", "no I/O after Stop: both library goroutines are counted in the wait group before they start and each defers its Done, so the wait in disengage covers the reader as well as the main loop before the terminal is handed back (= C05-R3)")
+	c.Expect("C04-R12", 5)
+	c.asRule("C05-R3", "C04-R12", func() { c05Pipeline(c, p) })
+	c.Rule("C04-R13", "the cursor has its default shape again: every table of cursor-shape strings the screen builds has an entry for CursorStyleDefault, the one the hand-back emits (a table without it yields the empty string and the application's shape stays)")
+	c.Expect("C04-R13", 2)
+	checkCursorStyleTablesHaveDefault(c, p, "C04-R13")
+	c.Rule("C04-R14", "after Resume exactly the modes the application had: each Enable…/Disable… records the request on every path, whatever state the screen is in (a setter that returns early while suspended leaves the old mode to be re-applied)")
+	c.Expect("C04-R14", 6)
+	checkModeSettersAlwaysRemember(c, p, "C04-R14", "tScreen", map[string]string{"EnableMouse": "mouseFlags", "DisableMouse": "mouseFlags", "EnablePaste": "pasteEnabled", "DisablePaste": "pasteEnabled", "EnableFocus": "focusEnabled", "DisableFocus": "focusEnabled"})
 	c.Rule("C04-R10", "nothing is drawn on a terminal that has been handed back: draw() does nothing unless the screen is running, or every one of its callers (Show, Sync, the resize handler) tests that itself — what Sync writes to a suspended terminal is never undone, Fini finds nothing to restore")
 	c.Expect("C04-R10", 1)
 	c.asRule("C06-R8", "C04-R10", func() { c06DrawProgress(c, p) })
